@@ -28,6 +28,9 @@ SAMENAME = {"a": DIR, "a/x": DIR, "a/x/f.txt": b"in a", "b": DIR, "b/x": DIR, "b
 # exact name bytes
 UNI = {"e\u0301.txt": b"decomposed", "\u00e9.txt": b"composed", "u\u0308 dir": DIR, "u\u0308 dir/f.txt": b"in nfd dir",
        "\u00fc dir": DIR, "\u00fc dir/f.txt": b"in nfc dir", "\u212b.bin": b"angstrom sign", "\uf900.bin": b"cjk compatibility"}
+# block sizes: folders with exactly 128 and 129 children
+BLOCK = {"k": DIR, **{f"k/f{i:03d}.bin": b"%d" % i for i in range(128)}, "k/m": DIR, **{f"k/m/g{i:03d}.bin": b"g%d" % i for i in range(127)}}
+BLOCK["k/m/sub"] = DIR   # k: 128 files + m = 129 children; k/m: 127 files + sub = 128 children
 SPECIAL_TREES = [WIDE, SAMENAME, UNI]
 
 
@@ -279,6 +282,8 @@ def main(tier, seed):
         deep = sorted((p for p, c in st.items() if c is not DIR), key=lambda p: -p.count("/"))[0]
         for fs in (["md5"], ["xxh64", "md5"], ["c4", "sha1"], ["xxh64"]):
             cases.append({"tree": st, "fmts": fs, "prior": ["xxh64"], "alter": deep})
+    cases.append({"tree": BLOCK, "fmts": ["md5", "xxh64"]})
+    cases.append({"tree": BLOCK, "fmts": ["c4"]})
     for f in ref.FORMATS_CLI:
         cases.append({"synthetic": f, "tree": {}, "fmts": [f]})
     if tier == "thorough":
